@@ -334,6 +334,12 @@ impl PeerHandler {
     }
 
     async fn timeout_keep_alive(&mut self) -> Result<(), Box<dyn std::error::Error>> {
+        // Messages with unknown ID (extensions) never reach handle_frame, connection skips them,
+        // but peer which sends them is not silent
+        if self.connection.take_unknown_msgs() > 0 {
+            self.peer_state.keep_alive = 0;
+        }
+
         if self.peer_state.keep_alive == KEEP_ALIVE_LIMIT {
             return Err(Error::KeepAliveTimeout.into());
         }
